@@ -370,12 +370,62 @@ func cgxForward(fns []*ssa.Function, seeds []ssa.Value) map[ssa.Value]bool {
 						if t[x.Tuple] {
 							mark(x)
 						}
+					case *ssa.Call:
+						// a function of the module that may hand back its argument (`stopToNil(err)`)
+						if cal := x.Call.StaticCallee(); cal != nil && !x.Call.IsInvoke() && inModule(cal) && len(cal.Blocks) > 0 {
+							for i, a := range x.Call.Args {
+								if t[a] && i < len(cal.Params) && cgxMayReturnParam(cal, cal.Params[i]) {
+									mark(x)
+								}
+							}
+						}
 					}
 				}
 			}
 		}
 	}
 	return t
+}
+
+// cgxMayReturnParam: some return of fn yields the parameter itself (through phis and interface changes).
+func cgxMayReturnParam(fn *ssa.Function, p *ssa.Parameter) bool {
+	seen := map[ssa.Value]bool{}
+	var is func(v ssa.Value) bool
+	is = func(v ssa.Value) bool {
+		if seen[v] {
+			return false
+		}
+		seen[v] = true
+		switch x := v.(type) {
+		case *ssa.Parameter:
+			return x == p
+		case *ssa.Phi:
+			for _, e := range x.Edges {
+				if is(e) {
+					return true
+				}
+			}
+		case *ssa.ChangeInterface:
+			return is(x.X)
+		case *ssa.MakeInterface:
+			return is(x.X)
+		case *ssa.ChangeType:
+			return is(x.X)
+		}
+		return false
+	}
+	for _, b := range fn.Blocks {
+		for _, in := range b.Instrs {
+			if ret, ok := in.(*ssa.Return); ok {
+				for _, res := range ret.Results {
+					if is(res) {
+						return true
+					}
+				}
+			}
+		}
+	}
+	return false
 }
 
 // cgxStoresTo lists the values stored into cell by any of fns.
